@@ -26,6 +26,8 @@ def OkE (g : Graph) : Expr → Prop
   | .inter a b => OkE g a ∧ OkE g b
   | .diff a b => OkE g a ∧ OkE g b
   | .forkPoint x => OkE g x
+  | .mergePoint x => OkE g x
+  | .forks => True
   | .latest x _ => OkE g x
   | .reachable s d => OkE g s ∧ OkE g d
   | .headsRange _ _ _ _ => False
@@ -88,6 +90,8 @@ theorem refsOf_lt (g : Graph) : ∀ (e : Expr), OkE g e → ∀ x ∈ refsOf e, 
     · exact ihd hok.2 x hx
   | headsRange r h fp f _ _ _ => intro hok; exact absurd hok (by simp [OkE])
   | forkPoint x ih => intro hok; exact ih hok
+  | mergePoint x ih => intro hok; exact ih hok
+  | forks => intro _ x hx; simp [refsOf] at hx
   | latest x n ih => intro hok; exact ih hok
 
 section
@@ -126,6 +130,9 @@ theorem resolve_ok : ∀ (e : Expr), OkE g e → OkR g (resolve g refs e) := by
   | reachable s d ihs ihd => intro hok; simp only [resolve, OkR]; exact ⟨ihs hok.1, ihd hok.2⟩
   | headsRange r h fp f _ _ _ => intro hok; exact absurd hok (by simp [OkE])
   | forkPoint x ih => intro hok; simp only [resolve, OkR]; exact ih hok
+  | mergePoint x ih =>
+    intro hok; simp only [resolve, OkR]; exact ⟨ih hok, okR_vhor g hw refs hrefs⟩
+  | forks => intro _; simp only [resolve, OkR]; exact okR_vhor g hw refs hrefs
   | latest x n ih => intro hok; simp only [resolve, OkR]; exact ih hok
 
 end
@@ -182,6 +189,12 @@ theorem resolve_spec (g : Graph) (refs : List Nat) :
   | headsRange r h fp f _ _ _ => intro hok; exact absurd hok (by simp [OkE])
   | forkPoint x ih =>
     intro hok p; simp only [resolve, denoteR, denote, ForkPointOf, HeadsOf, ih hok]
+  | mergePoint x ih =>
+    intro hok p
+    have hS : denoteR g (resolve g refs x) = denote g (refs ++ g.heads) x :=
+      funext fun y => propext (ih hok y)
+    simp only [resolve, rVhor, denoteR, denote, hS]
+  | forks => intro _ p; simp only [resolve, rVhor, denoteR, denote]
   | latest x n ih => intro hok p; simp only [resolve, denoteR, denote, LatestOf, ih hok]
 
 end JjModel.Revset
